@@ -96,6 +96,17 @@ fn same_path(a: &unix::net::SocketAddr, b: &[u8; UNIX_MAX], n: usize) -> bool {
     }
 }
 
+type US = <unix::net::SocketAddr as SA>::Storage;
+
+/// What the kernel reads: the sockaddr_un behind the pointer a10 passes, and the length a10 passes with it.
+fn sent(storage: &US) -> (&libc::sockaddr_un, usize) {
+    let (p, len) = unsafe { <unix::net::SocketAddr as SA>::as_ptr(storage) };
+    let lo = std::ptr::from_ref(storage).addr();
+    assert!(p.addr() >= lo && p.addr() + len as usize <= lo + size_of::<US>(), "pointer/length pair lies inside the address storage");
+    assert!(len as usize <= size_of::<libc::sockaddr_un>(), "never more than the family's structure");
+    (unsafe { &*p.cast::<libc::sockaddr_un>() }, len as usize)
+}
+
 #[kani::proof]
 #[kani::unwind(8)]
 fn c16_unix_path() {
@@ -105,7 +116,6 @@ fn c16_unix_path() {
     kani::assume(b[0] != 0 && (n < 2 || b[1] != 0) && (n < 3 || b[2] != 0) && (n < 4 || b[3] != 0));
     let a = unix::net::SocketAddr::from_pathname(Path::new(OsStr::from_bytes(&b[..n]))).unwrap();
     let storage = a.clone().into_storage();
-    assert!(storage.sun_family == libc::AF_UNIX as libc::sa_family_t);
     // what getsockname/accept/recvmsg report for a pathname socket
     let kernel_len = (SUN_PATH_OFFSET + n + 1) as u32;
     let back = unsafe { <unix::net::SocketAddr as SA>::init(MaybeUninit::new(storage), kernel_len) };
@@ -132,20 +142,37 @@ fn c16_unix_abstract() {
     kani::cover!(n == UNIX_MAX && b[1] == 0, "name with an embedded NUL");
 }
 
+/// Unnamed: getsockname/getpeername/accept report sizeof(sa_family_t); recvmsg for a datagram from an unbound
+/// socket reports length 0 and writes nothing (observed on the real kernel: findings/F14).
 #[kani::proof]
 #[kani::unwind(8)]
 fn c16_unix_unnamed() {
     let a = unix::net::SocketAddr::from_pathname("").unwrap();
     assert!(a.is_unnamed());
     let storage = a.clone().into_storage();
+    let (un, len) = sent(&storage);
+    assert!(un.sun_family == libc::AF_UNIX as libc::sa_family_t);
+    assert!(len == SUN_PATH_OFFSET, "length passed to the kernel for an unnamed address is sizeof(sa_family_t)");
     let back = unsafe { <unix::net::SocketAddr as SA>::init(MaybeUninit::new(storage), SUN_PATH_OFFSET as u32) };
     assert!(back.is_unnamed(), "unnamed address round-trips");
     kani::cover!(true, "end");
 }
 
+#[kani::proof]
+#[kani::unwind(8)]
+fn c16_unix_unnamed_len0() {
+    // nothing written by the kernel: the receive storage is whatever it was
+    let mut mu = MaybeUninit::<US>::uninit();
+    let (mp, cap) = unsafe { <unix::net::SocketAddr as SA>::as_mut_ptr(&mut mu) };
+    let lo = mu.as_ptr().addr();
+    assert!(mp.addr() >= lo && mp.addr() + cap as usize <= lo + size_of::<US>() && cap as usize == size_of::<libc::sockaddr_un>(), "receive capacity: a whole sockaddr_un inside the storage");
+    let back = unsafe { <unix::net::SocketAddr as SA>::init(mu, 0) };
+    assert!(back.is_unnamed(), "kernel-reported length 0 (datagram from an unbound socket) is the unnamed address");
+    kani::cover!(true, "end");
+}
+
 /// The pointer/length pair passed to the kernel covers exactly the address: for an abstract name of n bytes that is
 /// offsetof(sun_path) + 1 + n (abstract names are length-delimited: extra bytes become part of the name).
-/// KNOWN FINDING F8: as_ptr always reports sizeof(sockaddr_un).
 #[kani::proof]
 #[kani::unwind(8)]
 fn c16_unix_abstract_len() {
@@ -154,10 +181,11 @@ fn c16_unix_abstract_len() {
     let b = any_name(n);
     let a = <unix::net::SocketAddr as SocketAddrExt>::from_abstract_name(&b[..n]).unwrap();
     let storage = a.into_storage();
-    let (p, len) = unsafe { <unix::net::SocketAddr as SA>::as_ptr(&storage) };
-    assert!(p.addr() == std::ptr::from_ref(&storage).addr());
-    assert!(len as usize == SUN_PATH_OFFSET + 1 + n, "length passed to the kernel for an abstract name is offsetof(sun_path) + 1 + n");
-    kani::cover!(true, "end");
+    let (un, len) = sent(&storage);
+    assert!(len == SUN_PATH_OFFSET + 1 + n, "length passed to the kernel for an abstract name is offsetof(sun_path) + 1 + n");
+    assert!(un.sun_family == libc::AF_UNIX as libc::sa_family_t && un.sun_path[0] == 0);
+    assert!((n < 1 || un.sun_path[1] as u8 == b[0]) && (n < 2 || un.sun_path[2] as u8 == b[1]) && (n < 3 || un.sun_path[3] as u8 == b[2]) && (n < 4 || un.sun_path[4] as u8 == b[3]), "the name bytes, after the leading NUL");
+    kani::cover!(n == UNIX_MAX, "longest bounded name");
 }
 
 /// Pathname: any length from offsetof + strlen + 1 up to sizeof(sockaddr_un) names the same path (the kernel stops at
@@ -171,10 +199,9 @@ fn c16_unix_path_len() {
     kani::assume(b[0] != 0 && (n < 2 || b[1] != 0) && (n < 3 || b[2] != 0) && (n < 4 || b[3] != 0));
     let a = unix::net::SocketAddr::from_pathname(Path::new(OsStr::from_bytes(&b[..n]))).unwrap();
     let storage = a.into_storage();
-    let (p, len) = unsafe { <unix::net::SocketAddr as SA>::as_ptr(&storage) };
-    assert!(p.addr() == std::ptr::from_ref(&storage).addr());
-    assert!(len as usize >= SUN_PATH_OFFSET + n + 1 && len as usize <= size_of::<libc::sockaddr_un>(), "covers the name and its terminator, inside the structure");
-    assert!(storage.sun_path[n] == 0, "NUL-terminated inside the covered bytes");
+    let (un, len) = sent(&storage);
+    assert!(len >= SUN_PATH_OFFSET + n + 1, "covers the name and its terminator, inside the structure");
+    assert!(un.sun_path[0] as u8 == b[0] && un.sun_path[n - 1] as u8 == b[n - 1] && un.sun_path[n] == 0, "the name, NUL-terminated inside the covered bytes");
     kani::cover!(n == UNIX_MAX, "longest bounded name");
 }
 
